@@ -397,3 +397,55 @@ func ParamsOfType(fn *ssa.Function, match func(types.Type) bool) []*ssa.Paramete
 func constantInt64(c *types.Const) (int64, bool) {
 	return constant.Int64Val(constant.ToInt(c.Val()))
 }
+
+// lockOwner returns the struct type name whose field is the mutex operated on by c.
+func lockOwner(c ssax.Call) string {
+	if _, op := ssax.LockOp(c); op == "" || len(c.Common.Args) == 0 {
+		return ""
+	}
+	v := ssax.Strip(c.Common.Args[0])
+	if u, ok := v.(*ssa.UnOp); ok && u.Op == token.MUL {
+		v = u.X
+	}
+	fa, ok := v.(*ssa.FieldAddr)
+	if !ok {
+		return ""
+	}
+	t := fa.X.Type().Underlying().(*types.Pointer).Elem()
+	if n, ok := t.(*types.Named); ok {
+		return n.Obj().Name()
+	}
+	return ""
+}
+
+// lockBalance: every function that acquires a mutex field of one of the named
+// struct types releases it on every path to a return (directly or by defer).
+func lockBalance(ctx *core.Ctx, r *RT, rule string, owners ...string) {
+	own := map[string]bool{}
+	for _, o := range owners {
+		own[o] = true
+	}
+	for _, fn := range r.Fns {
+		uses := false
+		for _, c := range ssax.Calls(fn) {
+			if own[lockOwner(c)] {
+				if _, op := ssax.LockOp(c); op == "Lock" || op == "RLock" {
+					uses = true
+				}
+			}
+		}
+		if !uses {
+			continue
+		}
+		leaks := ssax.LeakedLocks(fn)
+		if len(leaks) == 0 {
+			ctx.Discharge(rule, ssax.Name(fn)+" › every acquired lock is released on all exits", fnPos(r, fn), "may-hold lockset empty at every return (deferred unlocks included)")
+			continue
+		}
+		for _, l := range leaks {
+			ctx.Violate(rule, ssax.Name(fn)+" › lock "+l.Key+" still held at a return", r.IPos(l.Return),
+				"a path returns with "+l.Key+" held (acquire without matching release on this exit): the next writer blocks forever and, with RWMutex writer preference, so does every later reader",
+				ssax.PathString(r.V.Fset, l.Path)...)
+		}
+	}
+}
